@@ -956,6 +956,9 @@ class SymArray(_np.ndarray):
         return float(self.flat[0])
 
     def __getitem__(self, key):
+        if _is_symbool_array(key) and key.ndim == 1 and self.ndim == 2 and key.shape[0] == self.shape[0] \
+                and not all(k.c is not None and k.u is None for k in key.tolist()):
+            return LazyMaskedRows(self, key)  # rows selected by a symbolic mask: reductions as If-folds, no forking
         key = _conc_key(key)
         r = super().__getitem__(key)
         return r
@@ -1042,6 +1045,63 @@ class SymArray(_np.ndarray):
 
     def __repr__(self):
         return "SymArray" + _np.ndarray.__repr__(_np.asarray(self))[5:]
+
+
+class LazyMaskedRows:
+    """`arr[mask]` for a 2-D array and a symbolic row mask.  min/max along axis 0 are If-folds over the selected rows
+    (undefined -- poisoned -- if no row is selected); any other use concretises the mask (forks)."""
+
+    def __init__(self, arr, mask):
+        self._arr, self._mask = arr, mask
+        self._conc = None
+
+    def _fold(self, pick):
+        from .symnp import _min2, _max2
+
+        f2 = _min2 if pick == "min" else _max2
+        a = self._arr.view(_np.ndarray)
+        ms = self._mask.tolist()
+        none = z3.Not(z3.Or([m.z for m in ms]))
+        out = _np.empty(a.shape[1], dtype=object)
+        for j in range(a.shape[1]):
+            res, have = None, None  # running value, "something selected so far"
+            for i, m in enumerate(ms):
+                v = SymReal.lift(a[i, j])
+                if res is None:
+                    res, have = v, m
+                else:
+                    cand = f2(res, v)
+                    res = ite(m, ite(have, cand, v), res)
+                    have = have | m
+            out[j] = SymReal(res, none)
+        return out.view(SymArray)
+
+    def min(self, axis=None, **kw):
+        if axis == 0:
+            return self._fold("min")
+        return self.concretize().min(axis=axis, **kw)
+
+    def max(self, axis=None, **kw):
+        if axis == 0:
+            return self._fold("max")
+        return self.concretize().max(axis=axis, **kw)
+
+    def concretize(self):
+        if self._conc is None:
+            self._conc = _np.ndarray.__getitem__(self._arr, concretize_mask(self._mask))
+        return self._conc
+
+    def __getattr__(self, name):
+        return getattr(self.concretize(), name)
+
+    def __getitem__(self, k):
+        return self.concretize()[k]
+
+    def __len__(self):
+        return len(self.concretize())
+
+    def __array__(self, dtype=None, copy=None):
+        return _np.asarray(self.concretize())
 
 
 def _conc_key(key):
